@@ -102,11 +102,14 @@ struct ssink {
     int err;
     bool failed;
     bool overflow;
+    bool once; /* transient fault: the sink fails exactly once, then accepts again */
 };
 
 static int ssink_put(void *drv, unsigned char c)
 {
     struct ssink *s = drv;
+    if (s->once && s->failed)
+        s->cap = s->phys;
     if (s->n >= s->cap) {
         s->failed = true;
         if (c12_first_err == 0)
@@ -127,6 +130,8 @@ static ssize_t ssink_put_chunk(void *drv, const void *buf, size_t n)
 {
     struct ssink *s = drv;
     const unsigned char *b = buf;
+    if (s->once && s->failed)
+        s->cap = s->phys;
     if (s->n > s->cap || n > (size_t)(s->cap - s->n)) {
         s->failed = true;
         if (c12_first_err == 0)
